@@ -1807,6 +1807,19 @@ LEMMAS = {
 }
 
 
+IMPURE_MARKERS = ('::env::', '::time::', '::fs::', '::io::', '::net::', '::process::', '::thread::', '::sync::atomic', 'Mutex', 'RwLock',
+                  '::cell::', 'Cell<', 'rand', 'random', 'SystemTime', 'Instant', 'getenv')
+
+
+def callee_is_pure(path):
+    """deterministic, state-free callee: anything in core/alloc/std/regex that does not touch the environment, clocks,
+    I/O, threads or interior mutability (deny-list, so that behaviour-preserving rewrites using other std helpers pass)"""
+    root = re.sub(r'^[<&\s]*(mut\s+)?', '', path).split('::')[0].strip('<> ')
+    if root not in ('core', 'alloc', 'std', 'regex', 'str', 'f32', 'f64', 'usize', 'bool', 'char'):
+        return False
+    return not any(m in path for m in IMPURE_MARKERS)
+
+
 def reduce_chain(ops):
     """normal form of a built-in sanitizer chain applied twice, using L1-L3; returns (normal form, lemmas used) or None"""
     used = set()
@@ -1877,8 +1890,8 @@ def check_canonical(rep, g):
                     continue
                 if cal is not None and cal.lid is not None and cal.dk == 'Fn' and not t[2]:
                     continue   # user constant function spelled in a bound (`lim()`): part of the declaration, not of the checks
-                if not any(p.endswith(x) for x in PURE_CALLEE_TAILS):
-                    impure.append(('callee not in the pure set', p))
+                if not callee_is_pure(p):
+                    impure.append(('callee outside core/alloc/std/regex or touching environment, time, I/O, threads or interior mutability', p))
             if t[0] == 'param':
                 pass
     rep.ob('R-CANON', not impure, g, 'every check is a recognised test of the stored value through pure std callees (deterministic re-validation)',
